@@ -115,6 +115,16 @@ func (fx *FnExec) monitorLock(st *State, fr *frame, site ssa.Instruction, cc *ss
 		}
 		fx.havocTarget(st, env, e)
 	}
+	// two-state invariants: old(e) is e at this Lock
+	snap := st.snapshotHeap()
+	ls := make(map[string]map[string]Term, len(st.lockSnap)+1)
+	for k, v := range st.lockSnap {
+		ls[k] = v
+	}
+	ls[m.Key+"|"+owner] = snap
+	st.lockSnap = ls
+	st.lastLock = snap
+	env.old = snap
 	for _, c := range m.Invariants {
 		v, err := env.safeEval(c.Expr)
 		if err != nil {
@@ -134,6 +144,9 @@ func (fx *FnExec) monitorUnlock(st *State, fr *frame, site ssa.Instruction, cc *
 	}
 	owner := st.val(ownerVal)
 	env := fx.monitorEnv(st, m, owner)
+	if snap, ok := st.lockSnap[m.Key+"|"+owner]; ok {
+		env.old = snap
+	}
 	for i, c := range m.Invariants {
 		v, err := env.safeEval(c.Expr)
 		if err != nil {
